@@ -44,6 +44,9 @@ import (
 type failKV struct {
 	kv.Base
 	failSave bool
+	mu       sync.Mutex
+	once     map[string]int  // keys whose next write(s) fail
+	always   map[string]bool // keys whose writes fail until told otherwise
 }
 
 var errInjected = errors.New("injected kv error")
@@ -52,7 +55,65 @@ func (k *failKV) Save(key, value string) error {
 	if k.failSave {
 		return errInjected
 	}
+	k.mu.Lock()
+	if k.once[key] > 0 {
+		k.once[key]--
+		k.mu.Unlock()
+		return errInjected
+	}
+	fail := k.always[key]
+	k.mu.Unlock()
+	if fail {
+		return errInjected
+	}
 	return k.Base.Save(key, value)
+}
+
+func regionKey(id uint64) string { return fmt.Sprintf("raft/r/%020d", id) }
+
+// snapshot freezes the failure settings as they are now; every call of the result gives a fresh predicate over them
+func (k *failKV) snapshot() func() func(uint64) bool {
+	if k == nil {
+		return func() func(uint64) bool { return func(uint64) bool { return false } }
+	}
+	k.mu.Lock()
+	once := map[string]int{}
+	for a, b := range k.once {
+		once[a] = b
+	}
+	always := map[string]bool{}
+	for a, b := range k.always {
+		always[a] = b
+	}
+	k.mu.Unlock()
+	frozen := &failKV{once: once, always: always}
+	return func() func(uint64) bool { return frozen.failing() }
+}
+
+// failing returns a predicate that says, and consumes like the kv will, whether the next save of a region fails;
+// it works on a copy of the counters
+func (k *failKV) failing() func(id uint64) bool {
+	if k == nil {
+		return func(uint64) bool { return false }
+	}
+	k.mu.Lock()
+	once := map[string]int{}
+	for a, b := range k.once {
+		once[a] = b
+	}
+	always := map[string]bool{}
+	for a, b := range k.always {
+		always[a] = b
+	}
+	k.mu.Unlock()
+	return func(id uint64) bool {
+		key := regionKey(id)
+		if once[key] > 0 {
+			once[key]--
+			return true
+		}
+		return always[key]
+	}
 }
 
 // ---------------------------------------------------------------------------------------------
@@ -85,6 +146,7 @@ type node struct {
 	ended     map[string]int                        // per follower name: streams whose server-side handler has returned
 
 	// follower
+	base      *failKV // plain followers: the default kv the regions are saved to (writes can be made to fail)
 	connected bool
 	stopped   chan struct{} // closed when the previous StopSyncWithLeader has returned
 }
@@ -135,16 +197,23 @@ func permute(rs []*core.RegionInfo, order string) []*core.RegionInfo {
 	return out
 }
 
-func (w *world) openNode(name, dir string, hcap int) *node {
-	n := &node{w: w, name: name, dir: dir, hcap: hcap}
+func (w *world) openNode(name, dir string, hcap int) *node { return w.openNodeOn(name, dir, hcap, nil) }
+
+// openNodeOn: with a base kv the node saves regions to it (`use-region-storage = false`), else to its region storage
+func (w *world) openNodeOn(name, dir string, hcap int, base *failKV) *node {
+	n := &node{w: w, name: name, dir: dir, hcap: hcap, base: base}
 	n.ctx, n.cancel = context.WithCancel(context.Background())
 	rs, err := core.NewRegionStorage(n.ctx, dir, nil)
 	if err != nil {
 		panic(err)
 	}
 	n.rs = rs
-	n.st = core.NewStorage(kv.NewMemoryKV(), core.WithRegionStorage(rs))
-	n.st.SwitchToRegionStorage()
+	if base != nil {
+		n.st = core.NewStorage(base, core.WithRegionStorage(rs))
+	} else {
+		n.st = core.NewStorage(kv.NewMemoryKV(), core.WithRegionStorage(rs))
+		n.st.SwitchToRegionStorage()
+	}
 	n.bc = core.NewBasicCluster()
 	n.sy = syncer.NewRegionSyncer(n)
 	if hcap > 0 {
@@ -476,14 +545,55 @@ const waitLimit = 40 * time.Second
 
 // expectedNext simulates the follower's index bookkeeping over the messages (ResetWithIndex on a
 // mismatch, one Record per region).
-func expectedNext(cur uint64, ms []*pdpb.SyncRegionResponse) uint64 {
+func expectedNext(cur uint64, ms []*pdpb.SyncRegionResponse, fails func(uint64) bool) uint64 {
 	for _, m := range ms {
 		if cur != m.GetStartIndex() {
 			cur = m.GetStartIndex()
 		}
-		cur += uint64(len(m.GetRegions()))
+		for _, r := range m.GetRegions() {
+			if !fails(r.GetId()) { // a region whose save fails is not recorded
+				cur++
+			}
+		}
 	}
 	return cur
+}
+
+// lastApplied: the last region of the last message has been processed by the follower (the index alone cannot
+// tell when that region's save fails): it is in the follower's history, or - if its save fails - in its cache
+func lastApplied(fo *node, ms []*pdpb.SyncRegionResponse) bool {
+	for k := len(ms) - 1; k >= 0; k-- {
+		m := ms[k]
+		n := len(m.GetRegions())
+		if n == 0 {
+			continue
+		}
+		j := n - 1
+		var leader *metapb.Peer
+		if len(m.GetRegionLeaders()) > j && m.GetRegionLeaders()[j].GetId() != 0 {
+			leader = m.GetRegionLeaders()[j]
+		}
+		r := core.NewRegionInfo(m.GetRegions()[j], leader)
+		if len(m.GetRegionStats()) == n {
+			st := m.GetRegionStats()[j]
+			r = core.NewRegionInfo(m.GetRegions()[j], leader, core.SetWrittenBytes(st.BytesWritten),
+				core.SetWrittenKeys(st.KeysWritten), core.SetReadBytes(st.BytesRead), core.SetReadKeys(st.KeysRead))
+		}
+		want := fmtRegion(r)
+		h := fo.sy.VerifHistory()
+		if cachedAs(fo, r.GetID(), want) {
+			return true
+		}
+		next := h.GetNextIndex()
+		return next > 0 && recordedAs(h, next-1, want)
+	}
+	return true
+}
+
+// cachedAs: the follower's cache holds the region as `want`
+func cachedAs(fo *node, id uint64, want string) bool {
+	r := fo.bc.GetRegion(id)
+	return r != nil && fmtRegion(r) == want
 }
 
 // disconnect stops the follower's receive loop.  StopSyncWithLeader cancels the stream at once but returns
@@ -647,6 +757,11 @@ func (w *world) exec(op string) string {
 			}
 			accepted++
 			before := h.GetNextIndex()
+			// will the write of this region fail on a follower?  (asked before the broadcast consumes a one-shot)
+			willFail := make([]bool, len(w.followers))
+			for i, fo := range w.followers {
+				willFail[i] = fo.base.failing()(r.GetID())
+			}
 			l.notifier <- r
 			if !waitFor(waitLimit, func() bool { return h.GetNextIndex() == before+1 }) {
 				return "timeout-record"
@@ -664,8 +779,16 @@ func (w *world) exec(op string) string {
 				}
 				fh := fo.sy.VerifHistory()
 				want := fmtRegion(r)
-				if !waitFor(5*time.Second, func() bool { return fh.GetNextIndex() == before+1 && recordedAs(fh, before, want) }) {
-					lagging += fmt.Sprintf(" lagging-%d=%d", i, fh.GetNextIndex())
+				done := func() bool { return fh.GetNextIndex() == before+1 && recordedAs(fh, before, want) }
+				if willFail[i] {
+					// the follower's write of this region fails: it is applied in memory, not recorded
+					id := r.GetID()
+					done = func() bool { return fh.GetNextIndex() == before && cachedAs(fo, id, want) }
+				}
+				if !waitFor(5*time.Second, done) {
+					ms, ns := l.peekSent(fo.name)
+					lagging += fmt.Sprintf(" lagging-%d=%d bound-%d=%v streams-%d=%d sent-%d=%d", i, fh.GetNextIndex(),
+						i, l.sy.VerifHasStream(fo.name), i, ns, i, len(ms))
 				}
 			}
 		}
@@ -704,8 +827,14 @@ func (w *world) exec(op string) string {
 			return bad
 		}
 		for _, spec := range f[2:] {
-			if parseRegion(spec).GetLeader() == nil {
+			r := parseRegion(spec)
+			if r.GetLeader() == nil {
 				return bad
+			}
+			for _, o := range w.followers {
+				if o.connected && o.base.failing()(r.GetID()) {
+					return bad // bursts and failing follower writes are exercised separately
+				}
 			}
 		}
 		l.mu.Lock()
@@ -787,13 +916,39 @@ func (w *world) exec(op string) string {
 		}
 		ms := l.takeSent(fo.name)
 		return fmt.Sprintf("ok acc=%s next=%d msgs=%s fnext=%d%s", acc.String(), h.GetNextIndex(), fmtMsgs(ms), fh.GetNextIndex(), tail)
-	case f[0] == "follower" && len(f) == 2:
+	case f[0] == "follower" && (len(f) == 2 || (len(f) == 3 && f[2] == "plain")):
 		if len(w.followers) >= 4 {
 			return bad
 		}
 		c, _ := strconv.Atoi(f[1])
-		n := w.openNode(fmt.Sprintf("f%d", len(w.followers)), w.newDir(), c)
+		var base *failKV
+		if len(f) == 3 {
+			base = &failKV{Base: kv.NewMemoryKV(), once: map[string]int{}, always: map[string]bool{}}
+		}
+		n := w.openNodeOn(fmt.Sprintf("f%d", len(w.followers)), w.newDir(), c, base)
 		w.followers = append(w.followers, n)
+		return "ok"
+	case f[0] == "failsave" && len(f) == 4:
+		// the write of that region's key on the follower's kv fails: once / always / off
+		fo := w.follower(f[1])
+		if fo == nil || fo.base == nil {
+			return bad
+		}
+		key := regionKey(u(f[2]))
+		fo.base.mu.Lock()
+		switch f[3] {
+		case "once":
+			fo.base.once[key]++
+		case "always":
+			fo.base.always[key] = true
+		case "off":
+			delete(fo.base.once, key)
+			delete(fo.base.always, key)
+		default:
+			fo.base.mu.Unlock()
+			return bad
+		}
+		fo.base.mu.Unlock()
 		return "ok"
 	case f[0] == "connect" && len(f) == 3:
 		fo, l := w.follower(f[1]), w.leader
@@ -811,6 +966,7 @@ func (w *world) exec(op string) string {
 		start := fh.GetNextIndex()
 		before := l.syncedCount(fo.name)
 		_, streams0 := l.peekSent(fo.name)
+		failsBefore := fo.base.snapshot()
 		fo.sy.StartSyncWithLeader(l.addr)
 		fo.connected = true
 		if !waitFor(waitLimit, func() bool { return l.syncedCount(fo.name) > before && l.sy.VerifHasStream(fo.name) }) {
@@ -819,12 +975,15 @@ func (w *world) exec(op string) string {
 		tail := ""
 		if !waitFor(waitLimit, func() bool {
 			ms, _ := l.peekSent(fo.name)
-			return fh.GetNextIndex() == expectedNext(start, ms)
+			return fh.GetNextIndex() == expectedNext(start, ms, failsBefore())
 		}) {
 			_, streams1 := l.peekSent(fo.name)
 			tail = fmt.Sprintf(" timeout-apply streams=%d", streams1-streams0)
 		}
 		ms := l.takeSent(fo.name)
+		if tail == "" && !waitFor(5*time.Second, func() bool { return lastApplied(fo, ms) }) {
+			tail = " last-region-not-applied"
+		}
 		return fmt.Sprintf("req=%d msgs=%s fnext=%d%s", start, fmtMsgs(ms), fh.GetNextIndex(), tail)
 	case f[0] == "raw" && len(f) == 6:
 		// a hand-made message on the follower's stream (what an older or a faulty leader could send): the
@@ -899,7 +1058,7 @@ func (w *world) exec(op string) string {
 		if err := fo.rs.Close(); err != nil {
 			return "close-error"
 		}
-		n := w.openNode(fo.name, fo.dir, fo.hcap)
+		n := w.openNodeOn(fo.name, fo.dir, fo.hcap, fo.base)
 		w.followers[i] = n
 		return fmt.Sprintf("ok fnext=%d", n.sy.VerifHistory().GetNextIndex())
 	}
